@@ -40,9 +40,11 @@ func (d *digest) Sum() []uints.U8 {
 }
 
 func (d *digest) FixedLengthSum(length frontend.Variable) []uints.U8 {
-	comparator := cmp.NewBoundedComparator(d.api, big.NewInt(int64(len(d.in))), false)
 	// in case the lower bound on the length of input is given, check that the input is long enough
 	if d.minimalLength > 0 {
+		// the comparator is only built when needed: its bound has to be
+		// positive, which does not hold for an empty input buffer
+		comparator := cmp.NewBoundedComparator(d.api, big.NewInt(int64(len(d.in))), false)
 		comparator.AssertIsLessEq(d.minimalLength, length)
 	}
 
